@@ -141,6 +141,11 @@ func runCleanup(c *core.Ctx) {
 					if pi, ok := pruneWrapper(h, isPruneFn); ok && pi < len(cc.Call.Args) {
 						pruneCalls = append(pruneCalls, cc)
 						keyArg[cc] = cc.Call.Args[pi]
+					} else if ka := appliedCleanupKey(fn, cc, isPruneFn); ka != nil {
+						// the callback run inside a function literal handed to a step that applies it and hands its error
+						// back (`err := c.unlocked(func() error { return c.pruneFn(key, val) })`)
+						pruneCalls = append(pruneCalls, cc)
+						keyArg[cc] = ka
 					}
 				}
 				if ka := keyArg[cc]; ka != nil && an.Origin(ka) == K {
@@ -1541,6 +1546,19 @@ func init() {
 							premise = true
 						}
 					}
+					// the arming step as a helper (`armTimer(d)`): the nil test sits at a call of it
+					if !premise {
+						for _, site := range c.P.Callers(fn) {
+							if site.Common().StaticCallee() != fn {
+								continue
+							}
+							for _, g := range an.GuardingEdges(site.Block()) {
+								if x, nilSucc, ok := an.NilTest(g.If()); ok && timerFromField(x) && g.Succ == nilSucc {
+									premise = true
+								}
+							}
+						}
+					}
 				})
 				nStop := 0
 				an.Calls(fn, func(call ssa.CallInstruction) {
@@ -2321,12 +2339,7 @@ func init() {
 				if fn.TypeParams().Len() > 0 && len(fn.TypeArgs()) == 0 {
 					continue
 				}
-				var deletes []ssa.Instruction
-				an.Calls(fn, func(call ssa.CallInstruction) {
-					if bi, ok := call.Common().Value.(*ssa.Builtin); ok && bi.Name() == "delete" {
-						deletes = append(deletes, call)
-					}
-				})
+				deletes := cacheDeleteSites(fn, 0)
 				decides := false
 				for _, b := range fn.Blocks {
 					if ifi := an.BlockIf(b); ifi != nil {
@@ -2456,13 +2469,7 @@ func init() {
 								continue
 							}
 							// the pruner deletes entries
-							deletes := false
-							an.Calls(callee, func(call ssa.CallInstruction) {
-								if bi, ok := call.Common().Value.(*ssa.Builtin); ok && bi.Name() == "delete" {
-									deletes = true
-								}
-							})
-							if !deletes {
+							if len(cacheDeleteSites(callee, 0)) == 0 {
 								continue
 							}
 							name := c.P.FuncName(fn)
@@ -2899,5 +2906,106 @@ func copyFacts(m map[string]bool) map[string]bool {
 	for k, v := range m {
 		out[k] = v
 	}
+	return out
+}
+
+// appliedCleanupKey: cc calls a step that applies a function-valued argument and returns what it returns, and the
+// argument is a function literal that calls the cleanup callback; the result is the key of that callback call as a
+// value of the calling function fn (a load of the captured variable), nil when cc is not of that form.
+func appliedCleanupKey(fn *ssa.Function, cc *ssa.Call, isPruneFn func(ssa.Value) bool) ssa.Value {
+	h := cc.Call.StaticCallee()
+	if h == nil || len(h.Blocks) == 0 {
+		return nil
+	}
+	// which parameter the step applies
+	applied := -1
+	an.Calls(h, func(call ssa.CallInstruction) {
+		for i, p := range h.Params {
+			if _, isSig := p.Type().Underlying().(*types.Signature); isSig && an.Strip(call.Common().Value) == ssa.Value(p) {
+				applied = i
+			}
+		}
+	})
+	if applied < 0 || applied >= len(cc.Call.Args) {
+		return nil
+	}
+	// and hands its error back: some return of the step yields the applied call's result
+	handsBack := false
+	an.Instrs(h, func(in ssa.Instruction) {
+		if ret, ok := in.(*ssa.Return); ok {
+			for _, rv := range ret.Results {
+				for _, o := range append([]ssa.Value{an.Origin(rv)}, an.Origins(rv)...) {
+					if call, _ := an.CallOf(o); call != nil && an.Strip(call.Call.Value) == ssa.Value(h.Params[applied]) {
+						handsBack = true
+					}
+				}
+			}
+		}
+	})
+	if !handsBack {
+		return nil
+	}
+	mc, ok := an.Strip(cc.Call.Args[applied]).(*ssa.MakeClosure)
+	if !ok {
+		return nil
+	}
+	lit, ok := mc.Fn.(*ssa.Function)
+	if !ok {
+		return nil
+	}
+	var key ssa.Value
+	an.Calls(lit, func(call ssa.CallInstruction) {
+		pc, ok := call.(*ssa.Call)
+		if !ok || pc.Call.StaticCallee() != nil || pc.Call.IsInvoke() || !isPruneFn(pc.Call.Value) || len(pc.Call.Args) == 0 {
+			return
+		}
+		// the key argument: a captured variable of the calling function
+		ka := an.Strip(pc.Call.Args[0])
+		if ld, isLd := ka.(*ssa.UnOp); isLd && ld.Op == token.MUL {
+			ka = ld.X
+		}
+		fv, isFV := ka.(*ssa.FreeVar)
+		if !isFV {
+			return
+		}
+		for i, f := range lit.FreeVars {
+			if f == fv && i < len(mc.Bindings) {
+				cell := mc.Bindings[i]
+				// a load of that cell in the calling function stands for the key
+				an.Instrs(fn, func(in ssa.Instruction) {
+					if l2, isLd := in.(*ssa.UnOp); isLd && l2.Op == token.MUL && l2.X == cell && key == nil {
+						key = l2
+					}
+				})
+				if key == nil {
+					key = cell
+				}
+			}
+		}
+	})
+	return key
+}
+
+// cacheDeleteSites: the instructions of fn that delete from a map — the delete builtin, or a call of a function of the
+// same package that does (an `evict(key, e)` step), two levels deep.
+func cacheDeleteSites(fn *ssa.Function, depth int) []ssa.Instruction {
+	var out []ssa.Instruction
+	if fn == nil || depth > 2 {
+		return nil
+	}
+	an.Calls(fn, func(call ssa.CallInstruction) {
+		if _, isDefer := call.(*ssa.Defer); isDefer {
+			return
+		}
+		if bi, ok := call.Common().Value.(*ssa.Builtin); ok && bi.Name() == "delete" {
+			out = append(out, call)
+			return
+		}
+		if h := call.Common().StaticCallee(); h != nil && h != fn && len(h.Blocks) > 0 && core.FuncPkgPath(h) == core.FuncPkgPath(fn) {
+			if _, isGo := call.(*ssa.Go); !isGo && len(cacheDeleteSites(h, depth+1)) > 0 {
+				out = append(out, call)
+			}
+		}
+	})
 	return out
 }
